@@ -3,7 +3,8 @@
    real sources do is the business of the correspondence engine `srcdiff` (translation
    validation: the same questions to every materialisation of a generated tree). *)
 From Coq Require Import List String NArith Bool.
-From AM Require Import Ref.Tree Proofs.Tree.
+From Coq Require Import Permutation.
+From AM Require Import Rust.Ast Gen.Archive Ref.Tree Proofs.Tree Ref.Archive Proofs.Archive Tie.Archive.
 Import ListNotations.
 
 Theorem C04_listing_is_exactly_the_direct_children : forall t d l,
@@ -19,3 +20,51 @@ Proof. exact listed_entries_are_there. Qed.
 Theorem C04_read_dir_answers_exactly_for_directories : forall t d,
   (exists l, spec_read_dir t d = Some l) <-> is_dir t d = true.
 Proof. exact read_dir_iff_directory. Qed.
+
+(* ---- archives: the index zip.rs / tar.rs build at open time (Ref/Archive.v) ---- *)
+
+(* the printed code is that construction: register_dir, register_file, the root first and then the
+   members in archive order; read_dir / exists answer from the two tables *)
+Theorem C04_code_builds_the_modelled_index :
+  register_dir_wf zip_register_dir = true /\ register_dir_wf tar_register_dir = true /\
+  register_file_wf zip_register_file = true /\ register_file_wf tar_register_file = true /\
+  path_source_wf "enclosed_name" zip_register_file = true /\ path_source_wf "path" tar_register_file = true /\
+  create_wf zip_loop zip_create = true /\ create_wf tar_loop tar_create = true /\
+  read_dir_wf zip_read_dir = true /\ read_dir_wf tar_read_dir = true /\
+  exists_wf zip_exists = true /\ exists_wf tar_exists = true.
+Proof. exact archives_index_as_modelled. Qed.
+
+(* for EVERY list of members (any order, any subset of directories having members of their own,
+   no member twice, no empty file id): the index answers exists / read_dir exactly like the
+   specification for the tree the members describe -- root and every implied intermediate
+   directory included, each child listed exactly once *)
+Theorem C04_archive_index_answers_like_the_tree : forall bytes ms,
+  NoDup ms -> (forall i x, In (MFile i x) ms -> i <> []) ->
+  let ix := build ms in let t := tree_of bytes ms in
+  (forall d, idx_exists ix (DDir d) = is_dir t d) /\
+  (forall i x, idx_exists ix (DFile i x) = spec_exists t (DFile i x)) /\
+  (forall d, match idx_read_dir ix d, spec_read_dir t d with
+             | Some l, Some l' => NoDup l /\ forall e, In e l <-> In e l'
+             | None, None => True
+             | _, _ => False
+             end).
+Proof. exact index_answers_like_the_tree. Qed.
+
+Theorem C04_member_order_is_irrelevant : forall ms ms',
+  NoDup ms -> (forall i x, In (MFile i x) ms -> i <> []) -> Permutation ms ms' ->
+  forall d, same_listing (idx_read_dir (build ms) d) (idx_read_dir (build ms') d).
+Proof. exact member_order_is_irrelevant. Qed.
+
+Theorem C04_implied_directory_members_are_redundant : forall ms i,
+  NoDup (MDir i :: ms) -> (forall j x, In (MFile j x) ms -> j <> []) ->
+  (exists m, In m ms /\ is_prefix i (dir_part m) = true) ->
+  forall d, same_listing (idx_read_dir (build (MDir i :: ms)) d) (idx_read_dir (build ms) d).
+Proof. exact implied_directory_members_are_redundant. Qed.
+
+Example C04_archive_nonvacuous :
+  let ms := [MFile ["a";"b";"f"] "x"; MDir ["a"]; MFile ["g"] ""; MDir ["c";"d"]; MFile ["a";"h"] "y"]%string in
+  idx_read_dir (build ms) ["a"]%string = Some [DDir ["a";"b"]; DFile ["a";"h"] "y"]%string /\
+  idx_read_dir (build ms) [] = Some [DDir ["a"]; DFile ["g"] ""; DDir ["c"]]%string /\
+  idx_read_dir (build ms) ["c"]%string = Some [DDir ["c";"d"]]%string /\
+  idx_read_dir (build ms) ["zz"]%string = None.
+Proof. vm_compute. repeat split. Qed.
